@@ -2,7 +2,8 @@
   UBidi.Lemmas.ExpandPipelineC09 — the hypothesis `ParaLevelsExpand` / `PbiExpand` of the level theorems of
   Props/C09.lean ("the UTF-16 API agrees with the UTF-8 API") discharged with the pipeline-level Expand
   theorem `Expand.paraLevels_expand`: same levels, character for character, for `BidiInfo` and
-  `ParagraphBidiInfo`, with no hypothesis left but the FSI-width proviso (none for the built-in tables).
+  `ParagraphBidiInfo`, with no hypothesis left on the data source (the FSI-width proviso is gone since the
+  repair of finding D10).
 -/
 import UBidi.Lemmas.ExpandPipeline
 import UBidi.Props.C09
@@ -15,15 +16,14 @@ theorem paraLevelsExpand (ds : DataSource) (t : Text) (hwf : t.WF) : ParaLevelsE
   rw [Expand.paraLevels_expand ds pl pure hasIso t hwf ocs hlen hu]
 
 /-- … and the instance `ParagraphBidiInfo::new(t, d)` uses -/
-theorem pbiExpand (ds : DataSource) (t : Text) (hwf : t.WF) (hfsi : C02.FSIWidth ds t) (d : Option Nat) :
+theorem pbiExpand (ds : DataSource) (t : Text) (hwf : t.WF) (d : Option Nat) :
     PbiExpand ds t d :=
-  PbiExpand_of_ParaLevelsExpand ds t d hwf hfsi (paraLevelsExpand ds t hwf)
+  PbiExpand_of_ParaLevelsExpand ds t d hwf (paraLevelsExpand ds t hwf)
 
 /-- C09, levels: for every sequence of 16-bit code units, the `&[u16]` text and the `&str` with the same
     characters get the same level for every character (read at its first code unit), with `BidiInfo` and
     with `ParagraphBidiInfo` -/
-theorem C09_levels (ds : DataSource) (u : List Nat) (h16 : ∀ x ∈ u, x < 65536) (d : Option Nat)
-    (hfsi16 : C02.FSIWidth ds (t16 u)) (hfsi8 : C02.FSIWidth ds (t8 u)) :
+theorem C09_levels (ds : DataSource) (u : List Nat) (h16 : ∀ x ∈ u, x < 65536) (d : Option Nat) :
     (t16 u).segs.map (fun s => (bidiInfo ds (t16 u) d).levels.getD s.start 0)
       = (t8 u).segs.map (fun s => (bidiInfo ds (t8 u) d).levels.getD s.start 0) ∧
     (t16 u).segs.map (fun s => (paragraphBidiInfo ds (t16 u) d).levels.getD s.start 0)
@@ -35,27 +35,26 @@ theorem C09_levels (ds : DataSource) (u : List Nat) (h16 : ∀ x ∈ u, x < 6553
     intro t hwf p hp
     obtain ⟨f, _, hg, _⟩ := Lemmas.C10.parasFrom_mem (Lemmas.C10.paras_good ds t hwf d).1 p hp
     exact paraLevelsExpand ds _ hg.1
-  obtain ⟨m, s⟩ := C09_levels_of_paraLevelsExpand ds u h16 d hfsi16 hfsi8
+  obtain ⟨m, s⟩ := C09_levels_of_paraLevelsExpand ds u h16 d
   exact ⟨m (sub _ w16) (sub _ w8), s (paraLevelsExpand ds _ w16) (paraLevelsExpand ds _ w8)⟩
 
 /-- … and within either text every code unit of a character carries the level of its first unit -/
-theorem C09_levels_uniform (ds : DataSource) (t : Text) (d : Option Nat) (hwf : t.WF) (hfsi : C02.FSIWidth ds t) :
+theorem C09_levels_uniform (ds : DataSource) (t : Text) (d : Option Nat) (hwf : t.WF) :
     Expand.UniformOn t (bidiInfo ds t d).levels ∧ Expand.UniformOn t (paragraphBidiInfo ds t d).levels := by
-  obtain ⟨m, s⟩ := C09_levels_uniform_of_expand ds t d hwf hfsi
-  refine ⟨m ?_, s (pbiExpand ds t hwf hfsi d)⟩
+  obtain ⟨m, s⟩ := C09_levels_uniform_of_expand ds t d hwf
+  refine ⟨m ?_, s (pbiExpand ds t hwf d)⟩
   intro p hp
   obtain ⟨f, _, hg, _⟩ := Lemmas.C10.parasFrom_mem (Lemmas.C10.paras_good ds t hwf d).1 p hp
-  exact pbiExpand ds _ hg.1 (subrange_FSIWidth ds t _ _ hfsi) d
+  exact pbiExpand ds _ hg.1 d
 
 /-- `ParagraphBidiInfo`: ONE vector of per-character levels of which the UTF-16 levels and the UTF-8 levels
     are the expansions over the respective code units -/
-theorem C09_levels_single (ds : DataSource) (u : List Nat) (h16 : ∀ x ∈ u, x < 65536) (d : Option Nat)
-    (hfsi16 : C02.FSIWidth ds (t16 u)) (hfsi8 : C02.FSIWidth ds (t8 u)) :
+theorem C09_levels_single (ds : DataSource) (u : List Nat) (h16 : ∀ x ∈ u, x < 65536) (d : Option Nat) :
     ∃ X : List Nat, X.length = (t16 u).segs.length ∧ X.length = (t8 u).segs.length ∧
       (paragraphBidiInfo ds (t16 u) d).levels = Expand.expand (t16 u) X ∧
       (paragraphBidiInfo ds (t8 u) d).levels = Expand.expand (t8 u) X :=
-  C09_levels_single_of_expand ds u h16 d hfsi16 hfsi8
-    (pbiExpand ds _ (t16_WF u h16) hfsi16 d) (pbiExpand ds _ (t8_WF u) hfsi8 d)
+  C09_levels_single_of_expand ds u h16 d
+    (pbiExpand ds _ (t16_WF u h16) d) (pbiExpand ds _ (t8_WF u) d)
 
 /-- with the built-in tables: every `&[u16]`, no hypothesis left -/
 theorem C09_levels_hardcoded (u : List Nat) (h16 : ∀ x ∈ u, x < 65536) (d : Option Nat) :
